@@ -1,14 +1,14 @@
 /-
 C17, the statements of `Rrtk/RefAlias.lean` (`rawAlias`, `cloneFrom`, `toDyn…With`) on the heap machine.
 
-IMPORTANT: the invariant `HInv` of `Thm/Ext/C17.lean` counts EVERY handle to an address (`cnt`) and requires the kind of the
+IMPORTANT: the invariant `HInv` of `Thm/Lemmas/C17Heap.lean` counts EVERY handle to an address (`cnt`) and requires the kind of the
 cell to BE the variant of every handle to it.  A raw alias of an `Rc` / `Arc` object violates both (`hinv_rawAlias_false`
 below), so `HInv` is NOT preserved by `rawAlias` of a counted handle.  The invariant of the extended machine is `HInvA`:
 the strong count is the number of COUNTED handles (`cntC`), a freed cell has no COUNTED handle, and a handle is either
 of the cell's kind or the raw-pointer variant INTO that kind (`RefVariant.rawOf`).  `HInv s ↔ HInvA s ∧ Proper s`.
 Tier S (no scalar).
 -/
-import Rrtk.Thm.Ext.C17
+import Rrtk.Thm.Lemmas.C17Heap
 import Rrtk.RefAlias
 set_option linter.unusedSectionVars false
 set_option linter.unusedSimpArgs false
@@ -729,7 +729,7 @@ example : Reachable' ⟨[⟨.arcMutex, 0, false, 1⟩], [none, some ⟨.arcMutex
   ⟨[], [.base (.alloc .arcMutex 0), .rawAlias 0, .cloneFrom 1 0, .base (.drop 0)], rfl⟩
 
 /-- a raw alias does NOT keep the object alive: the corresponding statement about ALL handles is false on the extended
-machine (this is the model saying what `unsafe` code can do, not a defect) -/
+machine (this is the model saying what raw-pointer user code can do, not a defect) -/
 theorem raw_alias_can_dangle :
     ∃ s, Reachable' s ∧ s.table.getD 1 none = some ⟨.ptrMutex, 0, false⟩ ∧ s.read 1 = .error .useAfterFree :=
   ⟨_, ⟨[], [.base (.alloc .arcMutex 0), .rawAlias 0, .base (.drop 0)], rfl⟩, rfl, rfl⟩
@@ -745,7 +745,7 @@ def cloneFromSkipSameAddr (s : RState) (i j : Nat) : Except HFault RState :=
     | .error e => .error e
     | .ok src => if old.addr = src.addr then .ok s else s.cloneFrom i j
 
-/-- `let a = <counted constructor>(0); let b = unsafe { from_ptr…(as_ptr(&a)) }; b.clone_from(&a); drop(a);` -/
+/-- `let a = <counted constructor>(0); let b = from_ptr…(as_ptr(&a)); b.clone_from(&a); drop(a);` -/
 def aliasScenario (k : RefVariant) : List HOp' :=
   [.base (.alloc k 0), .rawAlias 0, .cloneFrom 1 0, .base (.drop 0)]
 
@@ -793,5 +793,183 @@ theorem cloneFromSkipSameAddr_refuted :
     exact (Except.ok.inj this).symm
   subst e1 e2
   cases h3
+
+/-! ## 8. `HInv` (the invariant of the machine WITHOUT raw aliases) against `HInvA` -/
+
+/-- every handle is of the kind of its cell: no raw alias into an `Rc` / `Arc` object -/
+def Proper (s : RState) : Prop := ∀ h, some h ∈ s.table → ∀ c, s.heap[h.addr]? = some c → c.kind = h.variant
+
+theorem cntC_le_cnt (a : Nat) (l : List (Option RHandle)) : cntC a l ≤ cnt a l := by
+  induction l with
+  | nil => exact Nat.le_refl _
+  | cons x t ih =>
+    cases x with
+    | none => simpa [cntC, cnt] using ih
+    | some g =>
+      simp only [cntC, cnt, wC]
+      by_cases h1 : g.addr = a <;> by_cases h2 : g.variant.counted = true <;> simp [h1, h2] <;> omega
+
+theorem cntC_eq_cnt (a : Nat) (l : List (Option RHandle))
+    (hall : ∀ g, some g ∈ l → g.addr = a → g.variant.counted = true) : cntC a l = cnt a l := by
+  induction l with
+  | nil => rfl
+  | cons x t ih =>
+    have ht := ih (fun g hg => hall g (List.mem_cons_of_mem _ hg))
+    cases x with
+    | none => simpa [cntC, cnt] using ht
+    | some g =>
+      have hg := hall g (List.mem_cons_self ..)
+      simp only [cntC, cnt, wC, ht]
+      by_cases h1 : g.addr = a
+      · simp [h1, hg h1]
+      · simp [h1]
+
+/-- `HInv` is `HInvA` on the states without raw aliases into counted objects -/
+theorem hinv_iff (s : RState) : HInv s ↔ HInvA s ∧ Proper s := by
+  constructor
+  · intro hI
+    have hP : Proper s := by
+      intro h hm c hc
+      obtain ⟨c0, hc0, hk0⟩ := hI.1 h hm
+      rw [hc] at hc0; simp only [Option.some.injEq] at hc0; subst hc0; exact hk0
+    refine ⟨⟨?_, ?_⟩, hP⟩
+    · intro h hm
+      obtain ⟨c, hc, hk⟩ := hI.1 h hm
+      exact ⟨c, hc, Or.inl hk.symm⟩
+    · intro a c hc
+      obtain ⟨p1, p2, p3⟩ := hI.2 a c hc
+      refine ⟨?_, ?_, p3⟩
+      · intro hk hf
+        have : cntC a s.table = cnt a s.table :=
+          cntC_eq_cnt a s.table (fun g hg ha => by rw [← hP g hg c (by rw [ha]; exact hc)]; exact hk)
+        rw [this]; exact p1 hk hf
+      · intro hf
+        have := cntC_le_cnt a s.table
+        have := p2 hf
+        omega
+  · rintro ⟨hA, hP⟩
+    refine ⟨?_, ?_⟩
+    · intro h hm
+      obtain ⟨c, hc, _⟩ := hA.1 h hm
+      exact ⟨c, hc, hP h hm c hc⟩
+    · intro a c hc
+      obtain ⟨p1, p2, p3⟩ := hA.2 a c hc
+      have heq : c.kind.counted = true → cntC a s.table = cnt a s.table := fun hk =>
+        cntC_eq_cnt a s.table (fun g hg ha => by rw [← hP g hg c (by rw [ha]; exact hc)]; exact hk)
+      refine ⟨?_, ?_, p3⟩
+      · intro hk hf; rw [← heq hk]; exact p1 hk hf
+      · intro hf
+        cases hk : c.kind.counted with
+        | false => rw [p3 hk] at hf; cases hf
+        | true => rw [← heq hk]; exact p2 hf
+
+/-- **`HInv` is NOT preserved by `rawAlias`** of a counted handle: the raw handle is a handle to the cell that is neither
+of the cell's kind nor counted in `strong` (`HInv` was designed for the machine without raw aliases; the invariant that
+`rawAlias` does preserve is `HInvA`: `hinvA_rawAlias`) -/
+theorem hinv_rawAlias_false : ¬ (∀ s i s', HInv s → s.rawAlias i = .ok s' → HInv s') := by
+  intro h
+  have h0 : HInv (RState.init .arcMutex) := hinv_reachable _ ⟨[], [.alloc .arcMutex 0], rfl⟩
+  have h1 := h (RState.init .arcMutex) 0
+    ⟨[⟨.arcMutex, 0, false, 1⟩], [some ⟨.arcMutex, 0, false⟩, some ⟨.ptrMutex, 0, false⟩]⟩ h0 rfl
+  obtain ⟨c, hc, hk⟩ := h1.1 ⟨.ptrMutex, 0, false⟩ (by simp)
+  simp only [List.getElem?_cons_zero, Option.some.injEq] at hc
+  subst hc
+  cases hk
+
+theorem rawOf_raw (v : RefVariant) (hv : v.counted = false) : v.rawOf = v := by
+  cases v <;> first | rfl | cases hv
+
+/-- `HInv` is preserved by `rawAlias` of a handle that is itself a raw pointer (a static).
+MISSING for the full statement: the case of a counted handle in slot `i`, where the statement is FALSE
+(`hinv_rawAlias_false`); the full-strength theorem is `hinvA_rawAlias`, about `HInvA`. -/
+theorem hinv_rawAlias_partial (s s' : RState) (i : Nat) (hI : HInv s) (he : s.rawAlias i = .ok s')
+    (hraw : ∀ h, s.slot i = .ok h → h.variant.counted = false) : HInv s' := by
+  unfold RState.rawAlias at he
+  cases hs : s.slot i with
+  | error e => rw [hs] at he; cases he
+  | ok h =>
+    rw [hs] at he; dsimp only at he
+    unfold Heap.rawAlias at he
+    cases hcell : s.heap.cell h.addr with
+    | error e => rw [hcell] at he; cases he
+    | ok c =>
+      rw [hcell] at he; simp only [Except.ok.injEq] at he; subst he
+      have hk := hraw h hs
+      exact hinv_push_raw s h _ hI (mem_of_getD _ _ _ ((slot_ok _ _ _).1 hs)) hk rfl (rawOf_raw _ hk)
+
+/-- non-vacuity: a raw alias of a static -/
+example : (RState.init .ptrMutex).rawAlias 0 =
+    .ok ⟨[⟨.ptrMutex, 0, false, 0⟩], [some ⟨.ptrMutex, 0, false⟩, some ⟨.ptrMutex, 0, false⟩]⟩ := rfl
+example : ∀ h, (RState.init .ptrMutex).slot 0 = .ok h → h.variant.counted = false := by
+  intro h hh
+  have : (Except.ok ⟨.ptrMutex, 0, false⟩ : Except HFault RHandle) = .ok h := hh
+  rw [← Except.ok.inj this]; rfl
+
+theorem heap_kind_clone (hp hp' : Heap) (h h' : RHandle) (hc : hp.clone h = .ok (hp', h')) (b : Nat) :
+    (hp'[b]?).map (·.kind) = (hp[b]?).map (·.kind) := by
+  have := (clone_preserves_address hp hp' h h' hc).2.2.2.2.1 b
+  cases h1 : hp'[b]? <;> cases h2 : hp[b]? <;> simp_all
+
+theorem heap_kind_drop (hp hp' : Heap) (h : RHandle) (hd : hp.drop h = .ok hp') (b : Nat) :
+    (hp'[b]?).map (·.kind) = (hp[b]?).map (·.kind) := by
+  unfold Heap.drop at hd
+  cases hk : h.variant.counted with
+  | false => simp only [hk, Bool.false_eq_true, if_false, Except.ok.injEq] at hd; subst hd; rfl
+  | true =>
+    simp only [hk, if_true] at hd
+    cases hcell : hp.cell h.addr with
+    | error e => rw [hcell] at hd; cases hd
+    | ok c =>
+      rw [hcell] at hd
+      simp only [Except.ok.injEq] at hd
+      subst hd
+      rw [get_set _ _ _ (cell_lt _ _ _ hcell)]
+      by_cases hb : b = h.addr
+      · subst hb; simp [((cell_ok _ _ _).1 hcell).1]
+      · simp [hb]
+
+/-- **`clone_from` preserves `HInv`** (full statement: any `i`, `j`, also `i = j`; old and source counted or raw, at the
+same address or not) — on the machine without raw aliases, where every handle to a counted cell is counted -/
+theorem hinv_cloneFrom (s s' : RState) (i j : Nat) (hI : HInv s) (he : s.cloneFrom i j = .ok s') : HInv s' := by
+  obtain ⟨hA, hP⟩ := (hinv_iff s).1 hI
+  refine (hinv_iff s').2 ⟨hinvA_cloneFrom s s' i j hA he, ?_⟩
+  obtain ⟨old, src, hp, hi, hj, hcl, hd, htab⟩ := cloneFrom_ok s s' i j he
+  intro h hm c' hc'
+  have hm0 : some h ∈ s.table := by
+    rw [htab] at hm
+    rcases List.mem_or_eq_of_mem_set hm with hm | hm
+    · exact hm
+    · rw [hm]; exact mem_of_getD _ _ _ hj
+  have hk := (heap_kind_drop hp s'.heap old hd h.addr).trans (heap_kind_clone s.heap hp src src hcl h.addr)
+  rw [hc'] at hk
+  cases h0 : s.heap[h.addr]? with
+  | none => rw [h0] at hk; cases hk
+  | some c =>
+    rw [h0] at hk
+    simp only [Option.map_some, Option.some.injEq] at hk
+    rw [hk]; exact hP h hm0 c h0
+
+/-- non-vacuity: `clone_from` between two `Arc`s of different objects frees the old target -/
+example : hrun' [] RState.empty [.base (.alloc .arcMutex 1), .base (.alloc .arcMutex 2), .cloneFrom 0 1] =
+    .ok ⟨[⟨.arcMutex, 1, true, 0⟩, ⟨.arcMutex, 2, false, 2⟩], [some ⟨.arcMutex, 1, false⟩, some ⟨.arcMutex, 1, false⟩]⟩ := rfl
+example : HInv ⟨[⟨.arcMutex, 1, false, 1⟩, ⟨.arcMutex, 2, false, 1⟩], [some ⟨.arcMutex, 0, false⟩, some ⟨.arcMutex, 1, false⟩]⟩ :=
+  hinv_reachable _ ⟨[], [.alloc .arcMutex 1, .alloc .arcMutex 2], rfl⟩
+
+/-! ### non-vacuity of the `HInvA` theorems -/
+
+/-- a state WITH a raw alias into an `Arc` object satisfies `HInvA` (and not `HInv`: `hinv_rawAlias_false`) -/
+example : HInvA ⟨[⟨.arcMutex, 0, false, 1⟩], [some ⟨.arcMutex, 0, false⟩, some ⟨.ptrMutex, 0, false⟩]⟩ :=
+  hinvA_reachable' _ ⟨[], [.base (.alloc .arcMutex 0), .rawAlias 0], rfl⟩
+example : (RState.init .arcMutex).rawAlias 0 =
+    .ok ⟨[⟨.arcMutex, 0, false, 1⟩], [some ⟨.arcMutex, 0, false⟩, some ⟨.ptrMutex, 0, false⟩]⟩ := rfl
+example : (RState.init .rcRefCell).toDynCloneWith (fun _ => true) 0 =
+    .ok ⟨[⟨.rcRefCell, 0, false, 2⟩], [some ⟨.rcRefCell, 0, false⟩, some ⟨.rcRefCell, 0, true⟩]⟩ := rfl
+example : (RState.init .rcRefCell).toDynMoveWith (fun _ => true) 0 =
+    .ok ⟨[⟨.rcRefCell, 0, false, 1⟩], [none, some ⟨.rcRefCell, 0, true⟩]⟩ := rfl
+/-- `clone_from` onto itself (`i = j`) of the only `Arc` handle: count 1 → 2 → 1, not freed -/
+example : (RState.init .arcRwLock).cloneFrom 0 0 = .ok (RState.init .arcRwLock) := rfl
+/-- `clone_from` of a raw alias onto the only `Arc` handle: the object is freed, both handles now dangle -/
+example : (⟨[⟨.arcMutex, 0, false, 1⟩], [some ⟨.arcMutex, 0, false⟩, some ⟨.ptrMutex, 0, false⟩]⟩ : RState).cloneFrom 0 1 =
+    .ok ⟨[⟨.arcMutex, 0, true, 0⟩], [some ⟨.ptrMutex, 0, false⟩, some ⟨.ptrMutex, 0, false⟩]⟩ := rfl
 
 end Rrtk.Thm.C17
